@@ -28,6 +28,9 @@ pub struct Plan {
     pub threads: Vec<Vec<Call>>,
     pub sched: SchedSpec,
     pub env_seed: u64,
+    /// drive the limiter through the real server (interceptor -> handler -> enforce_rate_limit) instead of directly
+    #[serde(default)]
+    pub via_server: bool,
 }
 
 #[derive(Clone, Debug, Serialize, Deserialize)]
@@ -76,7 +79,14 @@ pub fn gen_plan(seed: u64, run: u64, tier: &str) -> Plan {
     }
     let env_seed = rng.next();
     let mut srng = Rng::for_run(seed, "C19s", run);
-    Plan { rates, global, threads, sched: SchedSpec::gen(&mut srng, 200), env_seed }
+    // every fifth program goes through the in-process server (fewer calls: an RPC costs more than a bucket call)
+    let via_server = prog % 5 == 4;
+    if via_server {
+        for t in threads.iter_mut() {
+            t.truncate(12);
+        }
+    }
+    Plan { rates, global, threads, sched: SchedSpec::gen(&mut srng, 200), env_seed, via_server }
 }
 
 #[derive(Clone, Debug, Serialize)]
@@ -125,25 +135,57 @@ pub fn execute(plan: &Plan) -> Exec {
     let r = on_fresh_thread(move || {
         let mut ex = Exec { problems: vec![], deadlocked: false, trace_hash: 0, calls: 0, admitted: 0, refused: 0, global_refusals_seen: 0, choices: vec![], sim_ns: 0 };
         let limiter = Arc::new(RateLimiter::new_with_global(p.global));
+        let server: Option<Arc<(crate::server::vharness::Harness, Vec<String>)>> = if p.via_server {
+            use crate::server::vharness::{Harness, ServerCfg, TenantSpec};
+            let dir = crate::common::fresh_dir("c19", 0);
+            let keys: Vec<String> = (0..p.rates.len()).map(|t| crate::rpc::api_key(&format!("tenant_{}", t), t as u64)).collect();
+            let tenants = p.rates.iter().enumerate().map(|(t, r)| TenantSpec { id: format!("tenant_{}", t), key: keys[t].clone(), max_vectors: 1000, max_qps: *r, is_admin: false, enabled: true }).collect();
+            let scfg = ServerCfg { dim: 2, metric: 1, tenants, auth: true, rate_limit: true, data_dir: None, aux_dir: dir, cache_cap: 2, qc_cap: 2, qc_threshold: 0.99, hot_soft: 4, hot_hard: 8, capacity: 64, snapshot_interval: 0, max_wal: 1 << 20, global_qps: p.global };
+            match Harness::start(&scfg) {
+                Ok(h) => Some(Arc::new((h, keys))),
+                Err(e) => {
+                    ex.problems.push(("harness".into(), format!("server start failed: {}", e), BTreeMap::new()));
+                    return ex;
+                }
+            }
+        } else {
+            None
+        };
         let t_start = simlibc::clock_now_ns();
         let hist: Arc<Mutex<Vec<Rec>>> = Arc::new(Mutex::new(Vec::new()));
         let single = p.threads.len() == 1;
         let mut bodies: Vec<Box<dyn FnOnce() + Send + 'static>> = Vec::new();
         for (t, calls) in p.threads.iter().enumerate() {
             let lim = Arc::clone(&limiter);
+            let srv = server.clone();
             let calls = calls.clone();
             let rates = p.rates.clone();
             let hist = Arc::clone(&hist);
             bodies.push(Box::new(move || {
+                let rt = srv.as_ref().map(|_| crate::rpc::paused_runtime());
                 for c in &calls {
                     simlibc::clock_advance_ns(c.gap_ns);
                     let name = format!("tenant_{}", c.tenant);
-                    let avail_before = if single { lim.available_tokens(&name) } else { None };
+                    let avail = |n: &str| match &srv {
+                        Some(s) => s.0.rate_tokens(n),
+                        None => lim.available_tokens(n),
+                    };
+                    let avail_before = if single { avail(&name) } else { None };
                     let tb = simlibc::clock_now_ns();
                     let _ = sim::stamp();
-                    let admitted = lim.check_limit(&name, rates[c.tenant]);
+                    let admitted = match (&srv, &rt) {
+                        (Some(s), Some(rt)) => {
+                            let resp = crate::rpc::call(rt, &s.0, &s.1, &crate::rpc::Cred::Tenant(c.tenant), &crate::rpc::Rpc::Query { id: 1, emb: false, ns: String::new() });
+                            if std::env::var("VSIM_C19_DEBUG").is_ok() {
+                                eprintln!("c19 server call tenant={} t={} -> code={} msg={:?} tokens={:?}", c.tenant, simlibc::clock_now_ns(), resp.code, resp.message, s.0.rate_tokens(&name));
+                            }
+                            // admitted = answered OK; RESOURCE_EXHAUSTED = refused (the wording of the message is not relied on)
+                            resp.code != 8
+                        }
+                        _ => lim.check_limit(&name, rates[c.tenant]),
+                    };
                     let ta = simlibc::clock_now_ns();
-                    let avail_after = if single { lim.available_tokens(&name) } else { None };
+                    let avail_after = if single { avail(&name) } else { None };
                     hist.lock().unwrap().push(Rec { thread: t, tenant: c.tenant, tb, ta, admitted, avail_before, avail_after });
                 }
             }));
@@ -275,6 +317,9 @@ pub fn run_batch(seed: u64, start: u64, count: u64, tier: &str, budget_ms: u64, 
         sum.probe("global_refusal_with_tenant_tokens_available", ex.global_refusals_seen);
         if plan.threads.len() > 1 {
             sum.probe("multi_thread_runs", 1);
+        }
+        if plan.via_server {
+            sum.probe("runs_through_the_server", 1);
         }
         if ex.refused > 0 && ex.admitted > 0 {
             sum.distinct_hash(ex.trace_hash ^ ex.admitted.wrapping_mul(0x9E3779B97F4A7C15));
